@@ -30,7 +30,8 @@ for b in blocks:
     dw = re.search(r'demo-with-change-exit: (\d+)', b)
     dc = re.search(r'demo-clean-exit: (\d+)', b)
     checks = re.findall(r'check (C\d+): (CAUGHT|missed|inconclusive)(.*)', b)
-    ok = (tests and 'failed' not in tests.group(1) and '461 passed' in
+    ok = (tests and not re.search(r'\b\d+ (failed|error)', tests.group(1))
+          and '461 passed' in
           tests.group(1) and dw and dw.group(1) != '0' and dc
           and dc.group(1) == '0')
     if not ok:
